@@ -469,6 +469,7 @@ func (p *Printer) appendTree(b []byte, n *node, offset, closes int) []byte {
 }
 
 func (p *Printer) caseName(name string) string {
+	orig := name
 	switch p.Case {
 	case upcaseKey:
 		name = strings.ToUpper(name)
@@ -479,6 +480,11 @@ func (p *Printer) caseName(name string) string {
 		rn := []rune(name)
 		rn[0] = unicode.ToUpper(rn[0])
 		name = string(rn)
+	}
+	if !strings.EqualFold(name, orig) {
+		// The case mapping of some letters, such as a dotless i, names a
+		// different symbol.
+		return orig
 	}
 	return name
 }
